@@ -25,7 +25,7 @@ ASSUMPTIONS = [
     "structural rulebook signature covers patterns, flags, logic/diff_logic/apply_logic qualified names, params, nesting",
 ]
 EXHAUSTIVE = {"quick": True, "thorough": True}
-FLOORS = {"quick": {"entries": 168, "rulebooks_loaded": 100, "registry_orders": 100, "cross_process_signatures": 20},
+FLOORS = {"quick": {"entries": 168, "rulebooks_loaded": 100, "registry_orders": 100, "cross_process_signatures": 20, "shared_provider_loads": 200},
           "thorough": {"entries": 168, "rulebooks_loaded": 100, "registry_orders": 100, "cross_process_signatures": 20}}
 SOFTS = ["", "Cumulus Linux 4.4", "VRP V200R005"]
 
@@ -34,6 +34,8 @@ def plan(tier, seed):
     n = 8
     specs = [{"mode": "main", "tier": tier, "seed": seed, "shard": k, "nshards": n} for k in range(n)]
     specs.append({"mode": "xproc", "tier": tier, "seed": seed})
+    for j in range(2 if tier == "quick" else 8):
+        specs.append({"mode": "shared", "tier": tier, "seed": seed, "perm": j})
     return specs
 
 
@@ -229,6 +231,35 @@ def run_shard(spec, acc):
     reg = registry_connector.get()
     canon = [(None, v.hardware.model) for v in reg.vendors.values()]
     extra = [(None, mdl) for mdl in sum(corpus.RULE_HW.values(), []) + list(corpus.STUB_HW.values())]
+    if spec["mode"] == "shared":
+        # one provider (and the production provider behind annet.rulebook.get_rulebook) serves many models of one
+        # vendor in a shuffled order: every rulebook must equal the one a fresh provider gives for that model alone
+        from annet.annlib.netdev.views.hardware import HardwareView
+        from annet.rulebook import DefaultRulebookProvider, get_rulebook
+        models = sorted({mdl for _, mdl in work + canon + extra if mdl})
+        prng = random.Random("C18/shared/%s/%s" % (spec["seed"], spec["perm"]))
+        prng.shuffle(models)
+        shared = DefaultRulebookProvider()
+        for mdl in models:
+            hw = HardwareView(mdl, "")
+            if hw.vendor is None:
+                continue
+            try:
+                fresh = R_hash(rb_signature(DefaultRulebookProvider().get_rulebook(hw)))
+                got = {"shared-provider": R_hash(rb_signature(shared.get_rulebook(hw)))}
+                if spec["perm"] % 2 == 0:
+                    got["production-provider"] = R_hash(rb_signature(get_rulebook(hw)))
+            except Exception as e:
+                acc.violation("C18/rulebook-does-not-load/%s" % type(e).__name__, "get_rulebook() fails for a model of the device database",
+                              {"model": mdl, "soft": "", "error": repr(e)[:300]})
+                continue
+            acc.count("shared_provider_loads")
+            acc.case([mdl, "shared", spec["perm"]], nontrivial=True)
+            for how, hh in got.items():
+                if hh != fresh:
+                    acc.violation("C18/rulebook-depends-on-load-history", "a provider that served other models before returns a different rulebook than a fresh provider",
+                                  {"model": mdl, "soft": "", "how": how, "order_prefix": models[:models.index(mdl)][-6:]})
+        return
     if spec["mode"] == "xproc":
         # signatures in this process vs a fresh process with another hash seed
         todo = [mdl for _, mdl in work[::7] if mdl] + [mdl for _, mdl in canon]
